@@ -9,6 +9,8 @@ from ..mon import hooks
 from ..mon import invariants
 from ..mon.client import call
 
+from ..ctx import level_of
+
 ID = "C15"
 COUNT_TAGS = ("RC", "FC", "KC")
 
@@ -193,7 +195,7 @@ def counts_ok(before_tags, after_tags, k):
 
 def run(case, ctx):
     version, lines, sname, k = case["version"], case["lines"], case["segment"], case["factor"]
-    r = call(ctx, "Gfa(list)", gfapy.Gfa, lines, version=version)
+    r = call(ctx, "Gfa(list)", gfapy.Gfa, lines, version=version, vlevel=level_of(ctx, lines))
     if not r.ok:
         ctx.violation("valid-document-refused/%s" % r.cls(), "%r: %s" % (lines, str(r.exc)[:200]), prop="C01")
         return
